@@ -377,6 +377,10 @@ var debugPanics = false
 func Discharge(obls []*Obligation, timeoutS int, confirm bool, workers int) {
 	var wg sync.WaitGroup
 	ch := make(chan *Obligation)
+	// once one instance of an obligation name has failed the name has failed:
+	// its remaining instances are not worth a solver timeout each
+	var mu sync.Mutex
+	failedNames := map[string]bool{}
 	for i := 0; i < workers; i++ {
 		wg.Add(1)
 		go func() {
@@ -399,7 +403,19 @@ func Discharge(obls []*Obligation, timeoutS int, confirm bool, workers int) {
 				if ob.Timeout > 0 && ob.Timeout < t {
 					t = ob.Timeout
 				}
+				mu.Lock()
+				already := failedNames[ob.Name]
+				mu.Unlock()
+				if already {
+					ob.Result = SolverResult{Status: "skipped", Solver: "-", Output: "another instance of this obligation already failed"}
+					continue
+				}
 				ob.Result = Solve(ob.Query, t, confirm)
+				if ob.Result.Status != "unsat" {
+					mu.Lock()
+					failedNames[ob.Name] = true
+					mu.Unlock()
+				}
 			}
 		}()
 	}
